@@ -615,10 +615,74 @@ inline bool lines_S(Rng& r, uint64_t idx)
     (void)mp;
     if (r.chance(1, 3)) run.poll();
   }
+  // ---- metadata attributes end to end: runtime-supplied source metadata, tags, named args in the pattern
+  std::vector<std::string> meta_want;
+  {
+    uint32_t id = World::next_sink_id()++;
+    auto msink = std::static_pointer_cast<RecSink>(Fe::create_or_get_sink<RecSink>(w.tag + "_meta", id));
+    msink->keep_stmt.store(true);
+    w.sinks.push_back(msink);
+    quill::PatternFormatterOptions mp{"M|%(file_name)|%(line_number)|%(caller_function)|%(short_source_location)|%(log_level)|%(tags)|%(named_args)|%(message)|E", "%H:%M:%S.%Qns", quill::Timezone::GmtTime, false};
+    w.make_logger({static_cast<uint32_t>(w.sinks.size() - 1)}, mp);
+    Lg* ml = w.loggers.back().lg;
+    std::vector<std::string>* mw = &meta_want;
+    uint32_t const nm = static_cast<uint32_t>(r.range(6, 30));
+    for (uint32_t i = 0; i < nm && !run.failed; ++i)
+    {
+      if (a.w->parked()) { run.poll(); run.resume(a); }
+      if (a.w->parked()) continue;
+      uint64_t const kind = r.below(3);
+      int const x = static_cast<int>(r.below(100000));
+      int const y = static_cast<int>(r.below(1000));
+      std::string const dirs = r.chance(1, 3) ? "" : (r.chance(1, 2) ? "src/" : "/abs/dir/sub/");
+      std::string const fname = "file" + std::to_string(r.below(5)) + ".cpp";
+      int const line = static_cast<int>(r.range(1, 99999));
+      std::string const func = "func" + std::to_string(r.below(4));
+      quill::LogLevel const lvl = r.pick({quill::LogLevel::Debug, quill::LogLevel::Info, quill::LogLevel::Error});
+      run.run_on(a, [ml, mw, kind, x, y, dirs, fname, line, func, lvl]
+                 {
+                   if (kind == 0)
+                   {
+                     std::string const path = dirs + fname;
+                     LOG_RUNTIME_METADATA(ml, lvl, path.c_str(), line, func.c_str(), "rt {} {}", x, y);
+                     mw->push_back("M|" + fname + "|" + std::to_string(line) + "|" + func + "|" + fname + ":" + std::to_string(line) + "|" + level_name(lvl) + "|||rt " + std::to_string(x) + " " + std::to_string(y) + "|E\n");
+                   }
+                   else if (kind == 1)
+                   {
+                     char const* const fn = __FUNCTION__;
+                     int const ln = __LINE__ + 1;
+                     LOG_WARNING_TAGS(ml, TAGS("t1", "t2"), "tag {}", x);
+                     mw->push_back(std::string{"M|fam_more2.h|"} + std::to_string(ln) + "|" + fn + "|fam_more2.h:" + std::to_string(ln) + "|WARNING|#t1 #t2 ||tag " + std::to_string(x) + "|E\n");
+                   }
+                   else
+                   {
+                     char const* const fn = __FUNCTION__;
+                     int const ln = __LINE__ + 1;
+                     LOG_INFO(ml, "na {alpha} {beta:>4}", x, y);
+                     mw->push_back(std::string{"M|fam_more2.h|"} + std::to_string(ln) + "|" + fn + "|fam_more2.h:" + std::to_string(ln) + "|INFO||alpha: " + std::to_string(x) + ", beta: " + fmtquill::format("{:>4}", y) + "|na " + std::to_string(x) + " " + fmtquill::format("{:>4}", y) + "|E\n");
+                   }
+                 },
+                 "log-meta");
+      if (r.chance(1, 3)) run.poll();
+    }
+  }
   bool ok = !run.failed && run.drain("lines_S");
   if (ok)
   {
     auto evs = recorder().snapshot();
+    {
+      std::vector<std::string> mgot;
+      for (auto const& e : evs)
+        if (e.kind == 'w' && e.sink == w.sinks.back()->id()) mgot.push_back(e.stmt);
+      size_t i = 0;
+      while (i < mgot.size() && i < meta_want.size() && mgot[i] == meta_want[i]) ++i;
+      if (i != mgot.size() || i != meta_want.size())
+      {
+        violation("C12", "metadata-attributes-differ-end-to-end",
+                  J{}.unum("first_difference_at", i).str("got", i < mgot.size() ? mgot[i] : "<none>").str("want", i < meta_want.size() ? meta_want[i] : "<none>").unum("got_lines", mgot.size()).unum("want_lines", meta_want.size()).str("scenario", "lines_S"));
+        ok = false;
+      }
+    }
     std::vector<std::string> got[2];
     for (auto const& e : evs)
       if (e.kind == 'w' && e.sink >= w.sink_id_base && e.sink < w.sink_id_base + 2) got[e.sink - w.sink_id_base].push_back(e.stmt);
@@ -662,7 +726,7 @@ inline bool lines_S(Rng& r, uint64_t idx)
     run.poll();
   }
   stat_add("lines_scenarios");
-  stat_add("lines_statements", static_cast<long long>(sent.size()));
+  stat_add("lines_statements", static_cast<long long>(sent.size() + meta_want.size()));
   stat_sig("lines_sigs", std::to_string(run.sig_hash));
   w.teardown_loggers();
   return ok && !run.failed;
